@@ -1177,7 +1177,11 @@ copy_file (char *from, char *to)
       else
         cp = from;
 
-      sprintf (newto, "%s/%s", to, cp);
+      if (snprintf (newto, sizeof (newto), "%s/%s", to, cp) >= (int) sizeof (newto))
+        {
+          close (from_fd);
+          return (-2);
+        }
       to = newto;
     }
 
